@@ -279,3 +279,27 @@ def replay_file(ctx, detail, relevant):
         report_mismatches(ctx, model, [('f', 0, beh, detail.get('opts') or {})], [(0, r)],
                           relevant or {c for c, _ in r['mismatches']}, detail['family'])
     return ctx.finish()
+
+
+def validate_recorded(ctx, kinds=None, cap=None):
+    """code -> spec on the replays themselves: the events Task.data produced during every replayed behaviour (recorded
+    by pytest_trace's observation wrappers when the plan has opts.record) are validated against StoreTrace.tla.
+    kinds: the event kinds whose rejection belongs to the calling property (None = all)."""
+    from . import trace_check
+    rec = ctx.extra.pop('_recorded', [])
+    if not rec:
+        return
+    traces = [{'test': f'replayed behaviour #{i}', 'events': ev} for i, ev in enumerate(rec)]
+    if cap:
+        traces = traces[:cap]
+    n, rejected = trace_check.validate(ctx, traces, label='replayed StoreAtomic behaviours')
+    ctx.extra['replay_traces_validated'] = n
+    ctx.extra['replay_trace_events'] = sum(len(t['events']) for t in traces)
+    shown = 0
+    for test, k, ev, before, tasks in rejected:
+        if kinds is not None and ev[0] not in kinds:
+            ctx.count('replay_trace_rejections_belonging_to_other_properties', 1)
+            continue
+        shown += 1
+        if shown <= 20:
+            ctx.report(f'replay-trace:{ev[0]}', f'{test}: event #{k} {ev} is not a behaviour of StoreTrace; preceding {before}')
